@@ -99,7 +99,7 @@ CHECKS = {
     text='viterbi() is executed on the z3-valued tensor model with symbolic log-weights; arg-max back-pointers are symbolic integers, so every feasible optimum/tie becomes its own path. Per path the derivation is checked for well-formedness and the '
          'solver decides that the weight of derive() (independent evaluator) equals the definitional maximum over all derivations x assignments (when finite) and the Viterbi-semiring sum_product. Right level: optimality for all weights and all ties is a '
          'quantified statement; tests fix one weight vector.',
-    note='Bounds: feature set + seeded samples of the single-rule / two-level families (<=3 nodes, <=4 edges per rule, <=12 weights), up to 3 start assignments each; recursive shapes of C02 with weights <= 0, derivation depth N+2. '
+    note='Rules that list an external node twice are outside the viterbi clauses of C04 and C12 (viterbi raises KeyError on them; hyperedge replacement with duplicated externals is outside C15 as well; sum_product supports them and C01 covers that). Bounds: feature set + seeded samples of the single-rule / two-level families (<=3 nodes, <=4 edges per rule, <=12 weights), up to 3 start assignments each; recursive shapes of C02 with weights <= 0, derivation depth N+2. '
          'Outside: +inf log-weights, rules listing an external node twice. Known finding F14 (zero-weight cycles recurse forever) is confined by its signature.',
     technique='path-forking symbolic execution with symbolic arg-max pointers + SMT optimality queries (z3 LRA)', design='5/C04'),
  'C02': dict(
